@@ -50,6 +50,7 @@ func runC11(c *Ctx) {
 		ruleClosedGuard(c, m)
 	}
 	ruleSurvive(c)
+	ruleManagerKeys(c, "MANAGERKEYS")
 	ruleKeysFirst(c, "KEYSFIRST")
 	// a reload acquires and releases handles of a shared listener while its reader goroutine runs: the state they share
 	// (socket, channels, count) must be guarded or fixed before the reader starts — a channel replaced under the reader's
@@ -129,6 +130,7 @@ func runC12(c *Ctx) {
 		ruleCancelPump(c, m, "CANCELPUMP")
 		ruleClosedGuard(c, m)
 	}
+	ruleManagerKeys(c, "MANAGERKEYS")
 }
 
 func ruleOnePump(c *Ctx, m *multiModel) {
@@ -1129,4 +1131,124 @@ func ruleKeysFirst(c *Ctx, rule string) {
 		}
 	}
 	c.Floor(rule, "key lists created and filled in the server command", n, 1)
+}
+
+// ruleManagerKeys (C10, C11, C12): a shared listener is looked up, registered and unregistered under one and the same key.
+// The last release of a shared listener removes it from the manager's table; if that removal uses another key than the
+// registration (the raw address vs a canonical spelling of it), the dead entry stays, and the next Listen for the address
+// finds it, "acquires" a listener whose socket is closed and reports success without binding anything.
+func ruleManagerKeys(c *Ctx, rule string) {
+	p := c.P
+	n := 0
+	for _, m := range findMultiListeners(c, rule) {
+		// the tables: map-typed fields (of structs with a mutex) whose values are this listener type / an interface it implements
+		lt := p.LookupType(m.T)
+		isTable := func(t types.Type) bool {
+			mt, ok := t.Underlying().(*types.Map)
+			if !ok {
+				return false
+			}
+			if eng.TypeName(mt.Elem()) == m.T {
+				return true
+			}
+			if it, ok := mt.Elem().Underlying().(*types.Interface); ok && lt != nil {
+				return types.Implements(types.NewPointer(lt), it) || types.Implements(lt, it)
+			}
+			return false
+		}
+		type use struct {
+			at  ssa.Instruction
+			key ssa.Value
+			fn  *ssa.Function
+			op  string
+		}
+		byFn := map[*ssa.Function][]use{}
+		for _, f := range p.FnsIn("service") {
+			if p.IsTestSupport(f) {
+				continue
+			}
+			root := eng.Root(f)
+			for _, b := range f.Blocks {
+				for _, ins := range b.Instrs {
+					var mp, key ssa.Value
+					op := ""
+					switch x := ins.(type) {
+					case *ssa.Lookup:
+						mp, key, op = x.X, x.Index, "lookup"
+					case *ssa.MapUpdate:
+						mp, key, op = x.Map, x.Key, "register"
+					case *ssa.Call:
+						if bi, ok := x.Call.Value.(*ssa.Builtin); ok && bi.Name() == "delete" && len(x.Call.Args) == 2 {
+							mp, key, op = x.Call.Args[0], x.Call.Args[1], "unregister"
+						}
+					}
+					if mp == nil || !isTable(mp.Type()) {
+						continue
+					}
+					// only tables that are fields of the manager (not the generic helper's parameter without a field behind it)
+					byFn[root] = append(byFn[root], use{ins, key, f, op})
+				}
+			}
+		}
+		// keyExpr: a canonical description of how a key is computed from the root function's parameters
+		var keyExpr func(v ssa.Value, d int) string
+		keyExpr = func(v ssa.Value, d int) string {
+			if d > 8 {
+				return "?"
+			}
+			v = p.Resolve(v)
+			switch x := v.(type) {
+			case *ssa.Parameter:
+				return fmt.Sprintf("param:%s#%s", short(x.Parent()), x.Name())
+			case *ssa.FreeVar:
+				if b := eng.FreeVarBinding(x); b != nil {
+					return keyExpr(b, d+1)
+				}
+			case *ssa.UnOp:
+				if x.Op == token.MUL {
+					if cell := eng.CellRoot(x.X); cell != nil {
+						sts := p.CellStores(cell)
+						if len(sts) == 1 {
+							return keyExpr(sts[0].Val, d+1)
+						}
+					}
+				}
+			case *ssa.Call:
+				if h := x.Call.StaticCallee(); h != nil {
+					s := "call:" + short(h) + "("
+					for _, a := range x.Call.Args {
+						s += keyExpr(a, d+1) + ","
+					}
+					return s + ")"
+				}
+			case *ssa.Const:
+				return "const:" + x.String()
+			}
+			return fmt.Sprintf("value:%p", v)
+		}
+		for root, us := range byFn {
+			ops := map[string]bool{}
+			for _, u := range us {
+				ops[u.op] = true
+			}
+			if !ops["register"] {
+				continue
+			}
+			n++
+			ref := ""
+			okAll := true
+			why := ""
+			for _, u := range us {
+				k := keyExpr(u.key, 0)
+				if ref == "" {
+					ref = k
+				} else if k != ref {
+					okAll = false
+					why = fmt.Sprintf("%s at %s uses %s, another use %s", u.op, p.IPos(u.at), k, ref)
+				}
+			}
+			c.Check(rule, short(root)+":one-key-for-lookup-registration-and-removal:"+m.T, p.Pos(root.Pos()), okAll, "the shared-listener table is accessed under differently computed keys in one Listen operation ("+why+"): an entry registered under one key is never removed under the other, and the dead entry is handed out at the next Listen")
+		}
+	}
+	c.Floor(rule, "manager operations that register a shared listener", n, 2)
 }
